@@ -475,3 +475,174 @@ Section Address.
     - apply nth_error_None in E. clear - E Hr. unfold zlen in *. lia.
   Qed.
 End Address.
+
+(* ================= registry lookups without normalising instruction bodies ================= *)
+Section Lookup.
+  Context {FO : FloatOps}.
+
+  Lemma mk_registry_app a b : mk_registry (a ++ b) = mk_registry a ++ mk_registry b.
+  Proof. unfold mk_registry. apply map_app. Qed.
+  Lemma lookup_app a b n :
+    lookup (a ++ b) n = match lookup a n with Some f => Some f | None => lookup b n end.
+  Proof.
+    induction a as [|[k f] r IH]; [reflexivity|]. cbn [app lookup]. destruct (str_eqb n k); [reflexivity|apply IH].
+  Qed.
+  Lemma lookup_none reg n :
+    forallb (fun k => negb (str_eqb n k)) (map fst reg) = true -> lookup reg n = None.
+  Proof.
+    induction reg as [|[k f] r IH]; [reflexivity|]. cbn [map fst forallb lookup]. intro H.
+    apply andb_prop in H as [H1 H2]. destruct (str_eqb n k); [discriminate|]. now apply IH.
+  Qed.
+End Lookup.
+
+(* evaluates the string comparisons of a lookup in a small table, leaves the semantics alone *)
+Ltac lookup_small :=
+  cbn [map fst snd mk_registry lookup];
+  repeat (match goal with
+          | |- context [str_eqb ?a ?b] =>
+              let v := eval vm_compute in (str_eqb a b) in
+              replace (str_eqb a b) with v by (vm_compute; reflexivity)
+          end; cbv iota; cbn [lookup]);
+  try reflexivity.
+(* lookup in the full registry: skips the tables that do not contain the name *)
+Ltac lookup_full T :=
+  unfold full_registry, full_table; rewrite ?mk_registry_app, ?lookup_app;
+  repeat match goal with
+         | |- context [lookup (mk_registry ?U) ?n] =>
+             lazymatch U with
+             | T => fail
+             | _ => rewrite (lookup_none (mk_registry U) n) by (vm_compute; reflexivity)
+             end
+         end;
+  unfold T; lookup_small.
+
+(* ================= LIST.GET followed by execution ================= *)
+Section GetRestores.
+  Context {FO : FloatOps}.
+  Variable p : profile.
+
+  Lemma lookup_list_get : lookup full_registry (s2l "LIST.GET"%string) = Some (pure list_get).
+  Proof. lookup_full tbl_list. Qed.
+  Lemma lookup_list_add : lookup full_registry (s2l "LIST.ADD"%string) = Some (pure list_add).
+  Proof. lookup_full tbl_list. Qed.
+
+  (* ---- single interpreter steps ---- *)
+  Lemma step_instr reg w s n E f :
+    st_exec s = IInstr n :: E -> lookup reg n = Some (pure f) ->
+    step p reg w s = let! s' := f (set_exec s E) in Ok (false, w, s').
+  Proof.
+    intros H1 H2. unfold step. rewrite H1, H2. unfold pure. destruct (f (set_exec s E)); reflexivity.
+  Qed.
+  Lemma step_lit reg w s v E :
+    st_exec s = ILit v :: E -> step p reg w s = Ok (false, w, push_lit (set_exec s E) v).
+  Proof. intro H. unfold step. now rewrite H. Qed.
+  Lemma step_list reg w s l E :
+    st_exec s = IList l :: E -> step p reg w s = Ok (false, w, set_exec s (l ++ E)).
+  Proof. intro H. unfold step. rewrite H. reflexivity. Qed.
+  Lemma steps_S reg k w s w' s' :
+    step p reg w s = Ok (false, w', s') -> steps p reg (S k) w s = steps p reg k w' s'.
+  Proof. intro H. cbn [steps]. rewrite H. reflexivity. Qed.
+
+  (* ---- push_lit touches exactly one typed stack ---- *)
+  Lemma push_lit_set_exec s v e : push_lit (set_exec s e) v = set_exec (push_lit s v) e.
+  Proof. destruct v; reflexivity. Qed.
+  Lemma push_lit_set_code s v e : push_lit (set_code s e) v = set_code (push_lit s v) e.
+  Proof. destruct v; reflexivity. Qed.
+  Lemma st_exec_push_lit s v : st_exec (push_lit s v) = st_exec s.
+  Proof. destruct v; reflexivity. Qed.
+  Lemma push_lits_set_exec lits : forall s e, push_lits lits (set_exec s e) = set_exec (push_lits lits s) e.
+  Proof.
+    unfold push_lits. induction lits as [|v r IH]; intros s e; [reflexivity|].
+    cbn [fold_left]. now rewrite push_lit_set_exec, IH.
+  Qed.
+  Lemma push_lits_set_code lits : forall s e, push_lits lits (set_code s e) = set_code (push_lits lits s) e.
+  Proof.
+    unfold push_lits. induction lits as [|v r IH]; intros s e; [reflexivity|].
+    cbn [fold_left]. now rewrite push_lit_set_code, IH.
+  Qed.
+  Lemma set_exec_same s : set_exec s (st_exec s) = s.
+  Proof. destruct s; reflexivity. Qed.
+
+  (* what push_lits does to every field *)
+  Lemma push_lits_fields lits : forall s,
+    let s' := push_lits lits s in
+    st_bool s' = rev (filter_map sel_bool lits) ++ st_bool s /\
+    st_int s' = rev (filter_map sel_int lits) ++ st_int s /\
+    st_float s' = rev (filter_map sel_float lits) ++ st_float s /\
+    st_index s' = rev (filter_map sel_index lits) ++ st_index s /\
+    st_bvec s' = rev (filter_map sel_bvec lits) ++ st_bvec s /\
+    st_ivec s' = rev (filter_map sel_ivec lits) ++ st_ivec s /\
+    st_fvec s' = rev (filter_map sel_fvec lits) ++ st_fvec s /\
+    st_code s' = st_code s /\ st_exec s' = st_exec s /\ st_name s' = st_name s /\
+    st_input s' = st_input s /\ st_output s' = st_output s /\ st_graph s' = st_graph s /\
+    st_bind s' = st_bind s /\ st_cfg s' = st_cfg s /\ st_quote s' = st_quote s /\ st_send s' = st_send s.
+  Proof.
+    unfold push_lits. induction lits as [|v r IH]; intro s.
+    - cbn. repeat split; reflexivity.
+    - cbn [fold_left]. specialize (IH (push_lit s v)). cbv zeta in *.
+      destruct IH as (H1 & H2 & H3 & H4 & H5 & H6 & H7 & H8 & H9 & H10 & H11 & H12 & H13 & H14 & H15 & H16 & H17).
+      rewrite H1, H2, H3, H4, H5, H6, H7, H8, H9, H10, H11, H12, H13, H14, H15, H16, H17.
+      destruct v; cbn [filter_map sel_bool sel_int sel_float sel_index sel_bvec sel_ivec sel_fvec rev push_lit
+                       st_bool st_code st_exec st_float st_index st_int st_name st_bvec st_fvec st_ivec st_input
+                       st_output st_graph st_bind st_cfg st_quote st_send set_bool set_int set_index set_float
+                       set_bvec set_ivec set_fvec];
+        rewrite <- ?app_assoc; repeat split; reflexivity.
+  Qed.
+
+  (* executing a run of literals *)
+  Lemma steps_lits lits : forall w s E,
+    st_exec s = map ILit lits ++ E ->
+    steps p full_registry (length lits) w s = Ok (false, w, set_exec (push_lits lits s) E).
+  Proof.
+    induction lits as [|v r IH]; intros w s E H.
+    - cbn [length steps push_lits fold_left]. cbn [map app] in H. rewrite <- H. now rewrite set_exec_same.
+    - cbn [length]. cbn [map app] in H. rewrite (steps_S _ _ _ _ _ _ (step_lit _ _ _ _ _ H)).
+      rewrite IH with (E := E).
+      + unfold push_lits. cbn [fold_left]. fold (push_lits r (push_lit (set_exec s (map ILit r ++ E)) v)).
+        fold (push_lits r (push_lit s v)).
+        rewrite push_lit_set_exec, push_lits_set_exec. reflexivity.
+      + now rewrite st_exec_push_lit.
+  Qed.
+
+  (* LIST.GET, then the record is unpacked and its literals are pushed *)
+  Lemma list_get_restores_lemma (w : world) (s : state) (idx : Z) (r : list Z) (lits : list lit) (E : list item) :
+    st_exec s = IInstr (s2l "LIST.GET"%string) :: E ->
+    st_int s = idx :: r ->
+    zlen (st_code s) <= max32 ->
+    nth_error (st_code s) (Z.to_nat (clamped_pos idx (zlen (st_code s)))) = Some (IList (map ILit lits)) ->
+    let s' := push_lits lits (set_exec (set_int s r) E) in
+    steps p full_registry (2 + length lits) w s = Ok (false, w, s') /\
+    st_code s' = st_code s /\ st_exec s' = E /\
+    st_bool s' = rev (filter_map sel_bool lits) ++ st_bool s /\
+    st_int s' = rev (filter_map sel_int lits) ++ r /\
+    st_float s' = rev (filter_map sel_float lits) ++ st_float s /\
+    st_index s' = rev (filter_map sel_index lits) ++ st_index s /\
+    st_bvec s' = rev (filter_map sel_bvec lits) ++ st_bvec s /\
+    st_ivec s' = rev (filter_map sel_ivec lits) ++ st_ivec s /\
+    st_fvec s' = rev (filter_map sel_fvec lits) ++ st_fvec s /\
+    st_name s' = st_name s /\ st_input s' = st_input s /\ st_output s' = st_output s /\
+    st_graph s' = st_graph s /\ st_bind s' = st_bind s /\ st_quote s' = st_quote s.
+  Proof.
+    intros He Hi Hl Hn s'.
+    assert (Hpos : 0 < zlen (st_code s)).
+    { destruct (st_code s); [destruct (Z.to_nat _); discriminate|]. rewrite zlen_cons. pose proof (zlen_nonneg l). lia. }
+    split.
+    - change (2 + length lits)%nat with (S (S (length lits))).
+      assert (Hg : list_get (set_exec s E) = Ok (push_exec (set_int (set_exec s E) r) (IList (map ILit lits)))).
+      { unfold list_get. change (st_int (set_exec s E)) with (st_int s). rewrite Hi. cbn zeta.
+        unfold record_pos. change (st_code (set_int (set_exec s E) r)) with (st_code s).
+        rewrite len32_small by exact Hl. rewrite clamp_is_clamped by exact Hpos.
+        pose proof (clamp_idx_range idx _ Hpos) as Hr. rewrite clamp_is_clamped in Hr by exact Hpos.
+        rewrite l_copy_in by exact Hr. rewrite Hn. reflexivity. }
+      rewrite (steps_S _ _ _ _ w (push_exec (set_int (set_exec s E) r) (IList (map ILit lits)))).
+      2:{ rewrite (step_instr _ _ _ _ _ _ He lookup_list_get). rewrite Hg. reflexivity. }
+      rewrite (steps_S _ _ _ _ w (set_exec (set_int (set_exec s E) r) (map ILit lits ++ E))).
+      2:{ rewrite (step_list _ w _ (map ILit lits) E) by reflexivity. reflexivity. }
+      rewrite steps_lits with (E := E) by reflexivity.
+      unfold s'. change (set_int (set_exec s E) r) with (set_exec (set_int s r) E).
+      rewrite !push_lits_set_exec. reflexivity.
+    - pose proof (push_lits_fields lits (set_exec (set_int s r) E)) as H. cbv zeta in H. fold s' in H.
+      destruct H as (H1 & H2 & H3 & H4 & H5 & H6 & H7 & H8 & H9 & H10 & H11 & H12 & H13 & H14 & H15 & H16 & H17).
+      repeat split; assumption.
+  Qed.
+End GetRestores.
